@@ -2,8 +2,13 @@
   Kevo.Proofs.Table — proofs about the block / SSTable codec model (re-exported by Props/C11).
 -/
 import Kevo.Model.Table
+import Kevo.Proofs.Sorted
+import Kevo.Proofs.BlockCodec
+import Kevo.Proofs.TableCodec
+import Kevo.Proofs.TableCounter
+import Kevo.Proofs.TableGet
 namespace Kevo.Proofs.Table
-open Kevo Kevo.Block Kevo.Table
+open Kevo Kevo.Block Kevo.Table Kevo.Proofs.TableAux
 
 /-- an entry the format can represent: non-empty key that fits the 16-bit length field, value shorter than the
     tombstone marker, 64-bit sequence number. -/
@@ -13,9 +18,16 @@ def EntryWF (e : BEntry) : Prop :=
 /-- the checksum function returns 64-bit values (xxhash.Sum64 does). -/
 def HashOK (hash : Bytes → Nat) : Prop := ∀ bs, hash bs < 2 ^ 64
 
+/-- the last conjunct is `validateBloomFilterSize`: a serialised filter (32-byte header + bit array) must not exceed
+    64 MiB, otherwise OpenReader rejects the bloom section the writer produced (see `bloom_filter_size_limit_needed`). -/
 def Params.WF (p : Params) : Prop :=
   0 < p.ri ∧ p.footerSize = 68 ∧ 2 ≤ p.version ∧ p.version < 2 ^ 32 ∧ p.magic < 2 ^ 64 ∧ 0 < p.bloomBits ∧
-  p.bloomBits < 2 ^ 32 ∧ p.bloomK < 2 ^ 32 ∧ p.bloomN < 2 ^ 64 ∧ 0 < p.blockCut
+  p.bloomBits < 2 ^ 32 ∧ p.bloomK < 2 ^ 32 ∧ p.bloomN < 2 ^ 64 ∧ 0 < p.blockCut ∧
+  32 + (p.bloomBits + 7) / 8 ≤ 64 * 1024 * 1024
+
+theorem Params.WF.split {p : Params} (hp : Params.WF p) : PWF p ∧ ∀ bloom, BloomFits p bloom := by
+  obtain ⟨h1, h2, h3, h4, h5, h6, h7, h8, h9, h10, h11⟩ := hp
+  exact ⟨⟨h1, h2, h3, h4, h5, h6, h7, h8, h9, h10⟩, fun _ _ => h11⟩
 
 /-- forward iteration from a positioned block iterator: the entries visited by `Valid/Next` loops. -/
 def collectB : Nat → Block.Iter → List BEntry
@@ -34,12 +46,46 @@ def collectT : Nat → Table.TIter → List BEntry
 theorem block_roundtrip (ri : Nat) (hri : 0 < ri) (hash : Bytes → Nat) (hh : HashOK hash) (es : List BEntry)
     (hne : es ≠ []) (hwf : ∀ e ∈ es, EntryWF e) (hsz : (Block.encode ri hash es).length < 2 ^ 32) :
     ∃ r, Block.openBlock hash (Block.encode ri hash es) = some r ∧ Block.decodeAll r = es := by
-  sorry
+  have _ := hri; have _ := hne   -- neither side condition is needed
+  exact block_roundtrip_aux ri hash hh es hwf hsz
+
+theorem collectB_none (es : List BEntry) (fuel : Nat) :
+    collectB fuel ({ es := es, pos := none, init := true } : Block.Iter) = [] := by
+  cases fuel with
+  | zero => rfl
+  | succ f => simp [collectB, Block.Iter.cur, Block.Iter.valid]
+
+theorem collectB_from (es : List BEntry) (hk : ∀ e ∈ es, e.key ≠ []) :
+    ∀ (fuel i : Nat), i < es.length → es.length - i ≤ fuel →
+      collectB fuel ({ es := es, pos := some i, init := true } : Block.Iter) = es.drop i := by
+  intro fuel
+  induction fuel with
+  | zero => intro i hi hf; omega
+  | succ f ih =>
+    intro i hi hf
+    have hcur : ({ es := es, pos := some i, init := true } : Block.Iter).cur = some es[i] := by
+      simp [Block.Iter.cur, hi]
+    have hval : ({ es := es, pos := some i, init := true } : Block.Iter).valid = true := by
+      simp [Block.Iter.valid, hcur]; exact hk _ (List.getElem_mem _)
+    rw [collectB]
+    simp only [hcur, hval]
+    rw [List.drop_eq_getElem_cons hi]
+    congr 1
+    by_cases h : i + 1 < es.length
+    · simp only [Block.Iter.next, h]
+      simpa using ih (i + 1) h (by omega)
+    · simp only [Block.Iter.next, h]
+      simp [collectB_none]
+      omega
 
 /-- (B2) forward iteration yields every entry exactly once, in order. -/
 theorem block_iter_all (es : List BEntry) (hk : ∀ e ∈ es, e.key ≠ []) :
     collectB (es.length + 1) ({ es := es } : Block.Iter).first = es := by
-  sorry
+  cases es with
+  | nil => simp [collectB, Block.Iter.first, Block.Iter.cur, Block.Iter.valid]
+  | cons e es =>
+    have := collectB_from (e :: es) hk ((e :: es).length + 1) 0 (by simp) (by omega)
+    simpa [Block.Iter.first] using this
 
 /-- (B3) Seek(t) lands on the first entry with key ≥ t, or is invalid if there is none. -/
 theorem block_seek_spec (es : List BEntry) (hasc : Block.strictAsc es = true) (hk : ∀ e ∈ es, e.key ≠ []) (t : Bytes) :
@@ -47,7 +93,23 @@ theorem block_seek_spec (es : List BEntry) (hasc : Block.strictAsc es = true) (h
     match r.1.cur with
     | some e => r.2 = true ∧ r.1.valid = true ∧ e ∈ es ∧ ltB e.key t = false ∧ (∀ e' ∈ es, ltB e'.key t = false → ltB e'.key e.key = false)
     | none => r.2 = false ∧ r.1.valid = false ∧ ∀ e ∈ es, ltB e.key t = true := by
-  sorry
+  intro r
+  by_cases hemp : es = []
+  · subst hemp
+    simp [r, Block.Iter.seek, Block.Iter.cur, Block.Iter.valid]
+  · have hr : r = ({ es := es, pos := findGE es t, init := true }, (findGE es t).isSome) := by
+      simp [r, Block.Iter.seek, hemp]
+    rw [hr]
+    cases hf : findGE es t with
+    | none =>
+      simp only [Block.Iter.cur, Block.Iter.valid, Option.bind_none, Option.isSome_none, true_and]
+      exact findGE_none es t hf
+    | some i =>
+      obtain ⟨hi, h1, h2⟩ := findGE_some es hasc t i hf
+      have hc : (Option.some i).bind (fun i => es[i]?) = some es[i] := by simp [hi]
+      simp only [Block.Iter.cur, Block.Iter.valid, hc, Option.isSome_some, true_and]
+      refine ⟨?_, List.getElem_mem _, h1, h2⟩
+      simpa using hk _ (List.getElem_mem hi)
 
 /-- (T1) a table file written from a strictly ascending entry list opens, and reading its blocks in index order
     gives back exactly the entries written (any number of blocks, with or without bloom filters). -/
@@ -55,19 +117,82 @@ theorem table_roundtrip (p : Params) (hp : Params.WF p) (hash fnv : Bytes → Na
     (hts : ts < 2 ^ 64) (bloom : Bool) (es : List BEntry) (hne : es ≠ []) (hasc : Block.strictAsc es = true)
     (hwf : ∀ e ∈ es, EntryWF e) (hsz : (Table.encode p hash fnv ts bloom es).length < 2 ^ 32) :
     ∃ r, Table.openTable p hash (Table.encode p hash fnv ts bloom es) = some r ∧ Table.allEntries hash r = some es := by
-  sorry
+  have _ := hasc   -- not needed for the round trip
+  have h := table_roundtrip_aux p hp.split.1 hash fnv hh ts hts bloom (hp.split.2 bloom) es hne hwf hsz
+  exact ⟨_, h.1, h.2⟩
+
+/-- the size conjunct of `Params.WF` cannot be dropped: without it `table_roundtrip` is refutable — parameters that
+    satisfy all other conjuncts (bloomBits = 2^30 < 2^32), one well-formed entry, a 134 MB file (< 2^32), and
+    `openTable` returns `none` because the filter (32 + 2^27 bytes) exceeds the 64 MiB limit of the loading loop. -/
+theorem bloom_filter_size_limit_needed :
+    ¬ (∀ (p : Params) (_ : PWF p) (hash fnv : Bytes → Nat) (_ : HashOK hash) (ts : Nat)
+        (_ : ts < 2 ^ 64) (bloom : Bool) (es : List BEntry) (_ : es ≠ []) (_ : Block.strictAsc es = true)
+        (_ : ∀ e ∈ es, EntryWF e) (_ : (Table.encode p hash fnv ts bloom es).length < 2 ^ 32),
+        ∃ r, Table.openTable p hash (Table.encode p hash fnv ts bloom es) = some r ∧
+          Table.allEntries hash r = some es) := by
+  intro h
+  obtain ⟨r, hr, _⟩ := h cxP cx_pwf cxHash (fun bs => bs.length) cx_hok 0 (by omega) true cxEs (by simp [cxEs])
+    (by decide) cx_ewf (by rw [cx_len]; omega)
+  rw [cx_open] at hr
+  cases hr
+
+theorem collectT_none (es : List BEntry) (fuel : Nat) :
+    collectT fuel ({ es := es, pos := none, init := true } : Table.TIter) = [] := by
+  cases fuel with
+  | zero => rfl
+  | succ f => simp [collectT, Table.TIter.cur, Table.TIter.valid]
+
+theorem collectT_from (es : List BEntry) (hk : ∀ e ∈ es, e.key ≠ []) :
+    ∀ (fuel i : Nat), i < es.length → es.length - i ≤ fuel →
+      collectT fuel ({ es := es, pos := some i, init := true } : Table.TIter) = es.drop i := by
+  intro fuel
+  induction fuel with
+  | zero => intro i hi hf; omega
+  | succ f ih =>
+    intro i hi hf
+    have hcur : ({ es := es, pos := some i, init := true } : Table.TIter).cur = some es[i] := by
+      simp [Table.TIter.cur, hi]
+    have hval : ({ es := es, pos := some i, init := true } : Table.TIter).valid = true := by
+      simp [Table.TIter.valid, hcur]; exact hk _ (List.getElem_mem _)
+    rw [collectT]
+    simp only [hcur, hval]
+    rw [List.drop_eq_getElem_cons hi]
+    congr 1
+    by_cases h : i + 1 < es.length
+    · simp only [Table.TIter.next, h]
+      simpa using ih (i + 1) h (by omega)
+    · simp only [Table.TIter.next, h]
+      simp [collectT_none]
+      omega
 
 /-- (T2) table-level iteration and seek over the flattened entries. -/
 theorem table_iter_all (es : List BEntry) (hk : ∀ e ∈ es, e.key ≠ []) :
     collectT (es.length + 1) ({ es := es } : Table.TIter).first = es := by
-  sorry
+  cases es with
+  | nil => simp [collectT, Table.TIter.first, Table.TIter.cur, Table.TIter.valid]
+  | cons e es =>
+    have := collectT_from (e :: es) hk ((e :: es).length + 1) 0 (by simp) (by omega)
+    simpa [Table.TIter.first] using this
 
 theorem table_seek_spec (es : List BEntry) (hasc : Block.strictAsc es = true) (hk : ∀ e ∈ es, e.key ≠ []) (t : Bytes) :
     let r := ({ es := es } : Table.TIter).seek t
     match r.1.cur with
     | some e => r.2 = true ∧ r.1.valid = true ∧ e ∈ es ∧ ltB e.key t = false ∧ (∀ e' ∈ es, ltB e'.key t = false → ltB e'.key e.key = false)
     | none => r.2 = false ∧ r.1.valid = false ∧ ∀ e ∈ es, ltB e.key t = true := by
-  sorry
+  intro r
+  have hr : r = ({ es := es, pos := findGE es t, init := true }, (findGE es t).isSome) := by
+    simp [r, Table.TIter.seek]
+  rw [hr]
+  cases hf : findGE es t with
+  | none =>
+    simp only [Table.TIter.cur, Table.TIter.valid, Option.bind_none, Option.isSome_none, true_and, if_true]
+    exact findGE_none es t hf
+  | some i =>
+    obtain ⟨hi, h1, h2⟩ := findGE_some es hasc t i hf
+    have hc : (Option.some i).bind (fun i => es[i]?) = some es[i] := by simp [hi]
+    simp only [Table.TIter.cur, Table.TIter.valid, hc, Option.isSome_some, true_and, if_true]
+    refine ⟨?_, List.getElem_mem _, h1, h2⟩
+    simpa using hk _ (List.getElem_mem hi)
 
 /-- (T3) point lookup finds every written key with its value / deletion flag, and nothing else
     (needs: no bloom false negatives + each filter keyed by its own block's offset + candidate block choice). -/
@@ -78,6 +203,7 @@ theorem table_get_spec (p : Params) (hp : Params.WF p) (hash fnv : Bytes → Nat
       Table.get hash fnv r k = (match es.find? (fun e => e.key = k) with
         | some e => .found e.val
         | none => .notFound) := by
-  sorry
+  intro r hr
+  exact table_get_aux p hp.split.1 hash fnv hh ts hts bloom (hp.split.2 bloom) es hne hasc hwf hsz k r hr
 
 end Kevo.Proofs.Table
